@@ -209,6 +209,9 @@ func c12Gen(seed uint64, tier string) *Plan {
 	p.Horizon = horizon + time.Second
 	b.add(Action{At: horizon, Kind: "get_silences", Str: "after-op"})
 	p.SortActions()
+	if ra := rng.Fork("autoholds"); ra.Bool(0.3) {
+		p.Holds = append(p.Holds, AutoHolds(ra, AutoSitesSilence[:2], ra.Range(1, 2), 24, 50*time.Millisecond, 60*time.Second)...)
+	}
 	return p
 }
 
@@ -434,7 +437,7 @@ func c12Check(p *Plan, r *RunResult) *Verdict {
 						v.Fail("C12", "C12/silence-kept-after-gc-past-retention", rec.T, "silence %s (end+retention %v) is still stored after the GC at %v", id, gcAt.Sub(p.Start), t)
 					}
 				}
-				if now.Sub(gcAt) > maint+2*time.Second {
+				if now.Sub(gcAt) > maint+2*time.Second+p.AutoSlack() {
 					v.Fail("C12", "C12/silence-kept-after-gc-past-retention", rec.T, "silence %s (end+retention %v) is still stored at %v although a maintenance GC (every %v) ran since", id, gcAt.Sub(p.Start), rec.T, maint)
 				}
 				v.Ob("stored-silence-matches-lifecycle-model")
